@@ -288,8 +288,27 @@ func cmdCheck(args []string) int {
 		case "deadlock":
 			confirmed = nr.Outcome == "timeout"
 		}
+		if !confirmed && v.Sched {
+			// a schedule-dependent instance: the native run took another interleaving. If it belongs to a
+			// recorded known finding (same assertion, same tagged history class) -- which was confirmed
+			// natively through its schedule-independent form -- it is that finding, not a new alarm.
+			isKnown := false
+			for _, kf := range known.Findings {
+				if kf.Status == "known" && kf.Tag != "" && kf.Property == prop && kf.Harness == v.Harness && kf.Label == v.Label && kf.In == v.In && hasTag(v.Tags, kf.Tag) {
+					isKnown = true
+					key := kf.Harness + kf.Label + kf.In + kf.Tag
+					if !knownPrinted[key] {
+						knownPrinted[key] = true
+						fmt.Printf("KNOWN-FINDING: property=%s %s [%s %s in %s, input class %q]\n", prop, kf.What, kf.Harness, kf.Label, kf.In, kf.Tag)
+					}
+				}
+			}
+			if isKnown {
+				continue
+			}
+		}
 		if !confirmed {
-			problems = append(problems, fmt.Sprintf("counterexample for %s/%s (in %s) did not reproduce natively: native outcome %q; events %s; detail %s", v.Harness, v.Label, v.In, nr.Outcome, describeEvents(v.Events), v.Detail))
+			problems = append(problems, fmt.Sprintf("counterexample for %s/%s (in %s) did not reproduce natively: native outcome %q; tags %q; events %s; detail %s", v.Harness, v.Label, v.In, nr.Outcome, v.Tags, describeEvents(v.Events), v.Detail))
 			continue
 		}
 		matched := false
